@@ -157,6 +157,8 @@ type segState struct {
 	Req   uint32              `json:"req"`
 	Lmod  []LSpec             `json:"lmod"`
 	Lorig map[string]HTTPSpec `json:"lorig"`
+	ExAgents map[string]bool  `json:"ex_agents,omitempty"` // fault_test.go
+	ExLinks  map[string]bool  `json:"ex_links,omitempty"`
 }
 
 type segReport struct {
@@ -168,6 +170,7 @@ type segReport struct {
 	Rows     []pvx.LinkRow       `json:"rows"`     // TS_Links at that moment
 	StartMS  int64               `json:"start_ms"`
 	Stopped  bool                `json:"stopped"`  // the segment ended at a restart that is to be performed (operation Next-1)
+	V        *core.Violation     `json:"v,omitempty"` // histories with a fault: the comparison made before that restart
 }
 
 // segmentChild: under the real Start(), apply the operations from cfg.From up to the next
@@ -183,6 +186,7 @@ func segmentChild(cfg childCfg, ts *server.Teamserver, say func(string), startMS
 		r.seeds = cfg.St.Seeds
 	}
 	r.req, r.lmod, r.lorig = cfg.St.Req+0x100, cfg.St.Lmod, cfg.St.Lorig
+	r.exAgents, r.exLinks = cfg.St.ExAgents, cfg.St.ExLinks
 	stop := false
 	r.restartFn = func(forced bool) bool {
 		if !forced && !reopenable(w) {
@@ -197,14 +201,21 @@ func segmentChild(cfg childCfg, ts *server.Teamserver, say func(string), startMS
 	rep.Restored = memView(w)
 	rep.Rows, _ = pvx.LinkRows(w.SQL)
 	for i := cfg.From; i < len(ops); i++ {
-		r.apply(ops[i])
+		r.step(i, ops[i])
 		if stop {
 			rep.Next = i + 1
 			rep.Stopped = true
+			if f := cfg.H.Fault; f != nil && !hasRestartX(cfg.H) && f.At >= cfg.From && f.At < i {
+				// histories with a fault: the state is compared before every restart that follows it
+				rep.V = core.Guard(func() *core.Violation { return compareRestored(w, r, nil) })
+				if rep.V != nil {
+					rep.V.Msg = fmt.Sprintf("before the restart at operation %d: %s", i, rep.V.Msg)
+				}
+			}
 			break
 		}
 	}
-	rep.St = segState{Seeds: r.seeds, Req: r.req, Lmod: r.lmod, Lorig: r.lorig}
+	rep.St = segState{Seeds: r.seeds, Req: r.req, Lmod: r.lmod, Lorig: r.lorig, ExAgents: r.exAgents, ExLinks: r.exLinks}
 	rep.Want = map[string]AgentImage{}
 	for _, a := range ts.Agents.Agents {
 		if a != nil && a.Active {
@@ -315,6 +326,10 @@ func (t *tailBuf) String() string { t.mu.Lock(); defer t.mu.Unlock(); return str
 
 func checkC(h History) *core.Violation {
 	countCells(h)
+	return underFaultSig(h, checkC1(h), checkC1)
+}
+
+func checkC1(h History) *core.Violation {
 	return onExistingFile(h, runC(h, h.dbMode()), func() *core.Violation { return runC(h, "fresh") })
 }
 
@@ -359,7 +374,15 @@ func runC(h History, mode string) *core.Violation {
 			}
 			continue
 		}
-		r.apply(op)
+		r.step(i, op)
+	}
+	if h.Fault != nil && pm == nil && handover > h.Fault.At {
+		// histories with a fault: the state is compared before every restart that follows it
+		if v := compareRestored(w, r, nil); v != nil {
+			r.finish()
+			v.Msg = fmt.Sprintf("before the restart at operation %d: %s", handover-1, v.Msg)
+			return v
+		}
 	}
 	r.finish() // the restarted server binds its own ephemeral ports
 	if handover >= 0 {
@@ -377,7 +400,7 @@ func runC(h History, mode string) *core.Violation {
 	pairs := memPairs(w)
 
 	nseg := 0
-	st := segState{Seeds: r.seeds, Req: r.req, Lmod: r.lmod, Lorig: r.lorig}
+	st := segState{Seeds: r.seeds, Req: r.req, Lmod: r.lmod, Lorig: r.lorig, ExAgents: r.exAgents, ExLinks: r.exLinks}
 	for handover >= 0 && err == nil {
 		var sr segReport
 		sr, err = runSegment(w.Dir, h, handover, st)
@@ -386,6 +409,9 @@ func runC(h History, mode string) *core.Violation {
 		}
 		nseg++
 		noteStartTime(len(sr.Restored), sr.StartMS)
+		if sr.V != nil {
+			return sr.V
+		}
 		if pm != nil {
 			// the real Start() at the head of this segment: restored sessions and structure
 			var before []string
@@ -404,6 +430,7 @@ func runC(h History, mode string) *core.Violation {
 		}
 		want, pairs, st = sr.Want, sr.Pairs, sr.St
 		r.lmod, r.lorig = st.Lmod, st.Lorig
+		r.exAgents, r.exLinks = st.ExAgents, st.ExLinks
 		handover = -1
 		if sr.Next < len(ops) {
 			handover = sr.Next
@@ -439,6 +466,10 @@ func runC(h History, mode string) *core.Violation {
 			return core.V("restart|agents|restored-twice", "session %s exists twice after the restart", a.Image.ID)
 		}
 		got[a.Image.ID] = a
+	}
+	for id := range r.exAgents { // fault_test.go: rows a failed statement left behind the memory
+		delete(want, id)
+		delete(got, id)
 	}
 	var ids []string
 	for id := range want {
@@ -479,6 +510,9 @@ func runC(h History, mode string) *core.Violation {
 		if pm != nil {
 			break
 		}
+		if r.exLinks[id] {
+			continue // fault_test.go: links a failed statement left behind the memory
+		}
 		wantParent := ""
 		wantKids := []string{}
 		for _, p := range pairs {
@@ -500,10 +534,18 @@ func runC(h History, mode string) *core.Violation {
 				return core.V("restart|links|nil-entry", "session %s has a nil entry in Pivots.Links after the restart (links %v)", id, g.Links)
 			}
 		}
+		if r.exAgents[g.Parent] {
+			continue
+		}
 		if g.Parent != wantParent {
 			return core.V("restart|links|parent-differs", "session %s: parent %q after the restart, %q before", id, g.Parent, wantParent)
 		}
-		gk := append([]string{}, g.Links...)
+		gk := []string{}
+		for _, l := range g.Links {
+			if !r.exAgents[l] {
+				gk = append(gk, l)
+			}
+		}
 		sort.Strings(gk)
 		sort.Strings(wantKids)
 		if strings.Join(gk, ",") != strings.Join(wantKids, ",") {
@@ -613,7 +655,7 @@ func genC(t *rapid.T) History {
 	}
 	h.Ops = append(h.Ops, ops...)
 	h.Ops = withCrafted(t, h.Ops, nreg)
-	return h
+	return withFault(t, h, nreg, false) // fault_test.go
 }
 
 func TestC10c(t *testing.T) {
